@@ -60,6 +60,9 @@ def _outer_loops():
     except Exception:
         return 0        # anchor lost: reported by the framework when it extracts the item itself
 
+_N = _outer_loops()
+# start of the current attempt at the lexeme: the function entry (recursive shape) / the head of the current iteration
+P0 = 'p0' if _N else 'old(self).pos'
 # (iterative shape only) the outer `loop`: every `continue` restarts the SAME ISO lexeme at a later position
 RESTART_LOOP = {
     'invariant': [('restart_cursor', 'self.buf == old(self).buf && self.nested == old(self).nested && self.wf() && old(self).pos <= self.pos'),
@@ -68,11 +71,10 @@ RESTART_LOOP = {
 # the octal-digit loop (both shapes); p0 = position where the current attempt at the lexeme starts
 OCT_LOOP = {
     'for_ghost': 'it',
-    'invariant': [('oct_cursor', 'self.buf == old(self).buf && self.nested == old(self).nested && self.wf() && p1 == p0 + 1 && self.pos == p1 + it.index@'),
+    'invariant': [('oct_cursor', 'self.buf == old(self).buf && self.nested == old(self).nested && self.wf() && p1 == %s + 1 &&' % P0 + '  self.pos == p1 + it.index@'),
                   ('oct_digits', 'forall|j: int| p1 <= j < self.pos ==> is_oct(self.buf@[j])'),
                   ('oct_value_is_iso', 'char_code as int == oct_val(self.buf@, p1, self.pos - p1) && char_code < 512 && (self.pos - p1 < 3 ==> char_code < 64)')],
     'ensures': [('oct_stop', 'self.pos == p1 + 3 || (self.pos < p1 + 3 && self.pos < self.buf@.len() && !is_oct(self.buf@[self.pos as int]))')]}
-_N = _outer_loops()
 LEXEME_LOOPS = dict([(k + 1, RESTART_LOOP) for k in range(_N)] + [(_N + 1, OCT_LOOP)])
 
 NWS = ('({ let p = skip_iso(old(self).buf@, old(self).pos as int); if p >= old(self).buf@.len() { r is Err } '
@@ -133,9 +135,8 @@ UNIT = {
      'decreases': '0nat' if _N else 'old(self).buf@.len() - old(self).pos',
      'loops': LEXEME_LOOPS,
      'rewrites': [
-        # p0 = position at which the lexeme under construction starts (== old(self).pos in the recursive shape, the position
-        # at the head of the current iteration in the iterative shape)
-        {'rule': 'R1', 'regex': r'let c = self\.next_byte\(\)\?;(\s*(?:return\s+)?match c\s*\{)',
+        # (iterative shape) p0 = position at the head of the current iteration
+        {'rule': 'R1', 'regex': r'let c = self\.next_byte\(\)\?;(\s*return\s+match c\s*\{)', 'count': '*',
          'replace': r'let ghost p0 = self.pos as int; let c = self.next_byte()?;\1'},
         {'rule': 'R2', 'regex': r'for _ in (\d+\s*\.\.=?\s*\d+)', 'replace': r'for _i in \1'},   # `_` loop variable named; the range stays under proof
         {'rule': 'R2', 'find': 'Some(char_code as u8)', 'replace': 'Some(#[verifier::truncate] (char_code as u8))'},
